@@ -1,2 +1,3 @@
-from . import core, strings, iters, maps, cell, errors, nums, fmt
+from . import core, strings, iters, maps, cell, errors, nums, fmt, pctenc, regexm
 ALL_MODELS = core.REG
+CONST_MODELS = dict(pctenc.CONST_MODELS)
